@@ -38,14 +38,17 @@ import (
 // View and compared.
 
 type scenario struct {
-	Name   string
-	Cfgs   []cfg
-	WOps   []string // alphabet inside writable transactions
-	ROps   []string // alphabet inside read-only transactions
-	Depth  int      // total inner ops over the history
-	MaxTx  int      // committed writable transactions per history
-	Reopen int      // clean close+reopen steps per history
-	Hold   bool     // sequential isolation probe (one held read-only tx)
+	Name          string
+	Cfgs          []cfg
+	WOps          []string // alphabet inside writable transactions
+	ROps          []string // alphabet inside read-only transactions
+	Depth         int      // total inner ops over the history
+	MaxTx         int      // committed writable transactions per history
+	Reopen        int      // clean close+reopen steps per history
+	Hold          bool     // sequential isolation probe (one held read-only tx)
+	HoldNeverOnly bool     // quick tier: the probe only under the never-flush policy (snapshots served by the treaps)
+	ObsBuckets    []string // buckets observed by the battery (nil: all of bucketUniverse)
+	NoBlockObs    bool     // no block ops in the alphabet: skip block observations
 }
 
 type node struct {
@@ -86,6 +89,7 @@ type replayObj struct {
 	Dropped []int    `json:"dropped,omitempty"`
 	Torn    string   `json:"torn,omitempty"`
 	Treap   []string `json:"treap,omitempty"`
+	Class   string   `json:"class,omitempty"` // part (a): the disagreement class this replay is about
 }
 
 type violSet struct {
@@ -105,6 +109,15 @@ func (v *violSet) add(key, what string, rp replayObj, size int) {
 	}
 }
 
+// covered reports whether a failing case of this class and at most this size is
+// already recorded (then a new one need not be confirmed and stored).
+func (v *violSet) covered(key string, size int) bool {
+	v.mu.Lock()
+	defer v.mu.Unlock()
+	old := v.m[key]
+	return old != nil && old.size <= size
+}
+
 func histSize(h []Step) int {
 	n := 0
 	for _, s := range h {
@@ -120,7 +133,7 @@ func runReplaySeq(rp replayObj) (*disc, error) {
 	}
 	h := rp.Hist
 	if len(rp.Prior) == 0 {
-		s, d, err := runHistory(rp.Cfg, h, rp.Battery)
+		s, d, err := runHistoryObs(rp.Cfg, h, rp.Battery, nil, false, rp.Class)
 		if s != nil {
 			s.destroy()
 		}
@@ -137,11 +150,18 @@ func runReplaySeq(rp replayObj) (*disc, error) {
 		}
 	}
 	r := s.runStep(len(h)-1, h[len(h)-1], rp.Battery)
+	if r.d == nil {
+		for _, sd := range r.soft {
+			if r.d == nil || sd.Class == rp.Class {
+				r.d = sd
+			}
+		}
+	}
 	return r.d, nil
 }
 
 type seqStats struct {
-	states, trans, paths, tjobs, nodes int64
+	states, trans, paths, tjobs, nodes, discs, commitErrs, reopens int64
 }
 
 type explorer struct {
@@ -152,6 +172,8 @@ type explorer struct {
 	mu    sync.Mutex
 	st    seqStats
 	harn  []string // harness errors (instance creation etc.)
+
+	reopened map[string]bool // committed-state keys whose close+reopen+dump was done
 }
 
 func (x *explorer) harness(format string, a ...interface{}) {
@@ -161,7 +183,7 @@ func (x *explorer) harness(format string, a ...interface{}) {
 }
 
 func (x *explorer) report(hist []Step, prior []Step, battery bool, d *disc) {
-	rp := replayObj{Part: "a", Cfg: x.cfg, Hist: hist, Prior: prior, Battery: battery}
+	rp := replayObj{Part: "a", Cfg: x.cfg, Hist: hist, Prior: prior, Battery: battery, Class: d.Class}
 	key := "seq/" + d.Class
 	if len(prior) > 0 {
 		key += "/only-after-earlier-rolled-back-transactions"
@@ -170,9 +192,26 @@ func (x *explorer) report(hist []Step, prior []Step, battery bool, d *disc) {
 	x.viols.add(key, what, rp, histSize(hist)+1000*len(prior))
 }
 
+// note records a disagreement found while exploring on a reused instance: unless
+// an equally small example of the class is already known, it is first confirmed
+// on a fresh instance that runs nothing but the history.
+func (x *explorer) note(full []Step, prior []Step, d *disc) {
+	if x.viols.covered("seq/"+d.Class, histSize(full)) {
+		return
+	}
+	d2, e2 := runReplaySeq(replayObj{Cfg: x.cfg, Hist: full, Battery: true, Class: d.Class})
+	if e2 != nil {
+		x.harness("confirm: %v", e2)
+	} else if d2 != nil && d2.Class == d.Class {
+		x.report(full, nil, true, d2)
+	} else {
+		x.report(full, append([]Step{}, prior...), true, d)
+	}
+}
+
 // ejob explores every transaction path at one committed node.
 func (x *explorer) ejob(n *node) (children []Step) {
-	s, d, err := runHistory(x.cfg, n.hist, false)
+	s, d, err := runHistoryObs(x.cfg, n.hist, false, x.sc.ObsBuckets, x.sc.NoBlockObs, "")
 	if err != nil {
 		x.harness("ejob build: %v", err)
 		return nil
@@ -191,7 +230,7 @@ func (x *explorer) ejob(n *node) (children []Step) {
 		s.destroy()
 		prior = nil
 		var e error
-		s, d, e = runHistory(x.cfg, n.hist, false)
+		s, d, e = runHistoryObs(x.cfg, n.hist, false, x.sc.ObsBuckets, x.sc.NoBlockObs, "")
 		if e != nil || d != nil {
 			x.harness("ejob rebuild failed: %v %v", e, d)
 			s = nil
@@ -206,7 +245,7 @@ func (x *explorer) ejob(n *node) (children []Step) {
 	var dfs func(kind string, alphabet []string, path []string, rem int, visited map[string]int) bool
 	dfs = func(kind string, alphabet []string, path []string, rem int, visited map[string]int) bool {
 		for _, op := range alphabet {
-			if x.r.Expired() {
+			if expired(x.r) {
 				return false
 			}
 			np := append(append([]string{}, path...), op)
@@ -217,19 +256,19 @@ func (x *explorer) ejob(n *node) (children []Step) {
 			}
 			st.trans += int64(len(np)) + 1
 			st.paths++
+			for _, sd := range res.soft {
+				x.note(append(append([]Step{}, n.hist...), step), prior, sd)
+			}
 			if res.d != nil {
 				full := append(append([]Step{}, n.hist...), step)
-				// confirm on a fresh instance with nothing but the history
-				d2, e2 := runReplaySeq(replayObj{Cfg: x.cfg, Hist: full, Battery: true})
-				if e2 != nil {
-					x.harness("confirm: %v", e2)
-				} else if d2 != nil && d2.Class == res.d.Class {
-					x.report(full, nil, true, d2)
-				} else {
-					x.report(full, append([]Step{}, prior...), true, res.d)
-				}
-				if !rebuild() {
-					return false
+				st.discs++
+				x.note(full, prior, res.d)
+				// the transaction was rolled back; keep the instance if its
+				// committed state is still what it should be
+				if s.checkCommitted("after-rollback") != nil {
+					if !rebuild() {
+						return false
+					}
 				}
 				continue
 			}
@@ -281,6 +320,7 @@ func (x *explorer) ejob(n *node) (children []Step) {
 	x.st.states += st.states
 	x.st.trans += st.trans
 	x.st.paths += st.paths
+	x.st.discs += st.discs
 	x.st.nodes++
 	x.mu.Unlock()
 	return children
@@ -289,7 +329,7 @@ func (x *explorer) ejob(n *node) (children []Step) {
 // tjob verifies one committed-level transition on a fresh instance and returns
 // the child node (nil when a disagreement was found).
 func (x *explorer) tjob(n *node, step Step) (*node, string) {
-	s, d, err := runHistory(x.cfg, n.hist, false)
+	s, d, err := runHistoryObs(x.cfg, n.hist, false, x.sc.ObsBuckets, x.sc.NoBlockObs, "")
 	if err != nil {
 		x.harness("tjob build: %v", err)
 		return nil, ""
@@ -315,12 +355,8 @@ func (x *explorer) tjob(n *node, step Step) (*node, string) {
 		}
 		r := s.runStep(idx, step, true)
 		trans += 2 * int64(len(step.Ops)+1)
-		if r.d == nil && r.commitErr != nil {
-			r.d = &disc{Class: "Commit/error", What: "commit without any injected fault failed: " + r.commitErr.Error(), Step: idx, Op: -1}
-			if d2 := s.checkCommitted("after-failed-commit"); d2 != nil {
-				r.d.Class += "+" + d2.Class
-				r.d.What += " AND " + d2.What
-			}
+		for _, sd := range r.soft {
+			x.note(full, nil, sd)
 		}
 		if r.d != nil {
 			// minimal form: without the decoy
@@ -330,6 +366,15 @@ func (x *explorer) tjob(n *node, step Step) (*node, string) {
 			} else {
 				x.report(full, []Step{decoy}, true, r.d)
 			}
+			return nil, ""
+		}
+		if r.commitErr != nil {
+			// failed without being applied (state verified by runStep): atomic,
+			// counted, no child
+			x.mu.Lock()
+			x.st.commitErrs++
+			x.mu.Unlock()
+			x.r.Sample(map[string]interface{}{"part": "a", "note": "commit failed without injected fault but atomically", "cfg": x.cfg.String(), "history": histString(full), "error": r.commitErr.Error()})
 			return nil, ""
 		}
 		if step.writable() {
@@ -361,6 +406,21 @@ func (x *explorer) tjob(n *node, step Step) (*node, string) {
 		}
 	}
 	key := child.key(s.ref.Committed().Dump())
+	x.mu.Lock()
+	x.st.tjobs++
+	x.st.trans += trans
+	first := !x.reopened[key]
+	if x.reopened == nil {
+		x.reopened = map[string]bool{}
+	}
+	x.reopened[key] = true
+	x.mu.Unlock()
+	x.r.Trace(1)
+	if !first {
+		// an instance in exactly this (state, unflushed write set, held reader,
+		// budgets) has already been closed, reopened and dumped
+		return child, key
+	}
 	// end of life: release the held reader, clean close, reopen, full dump
 	tail := full
 	if s.held != nil {
@@ -378,10 +438,9 @@ func (x *explorer) tjob(n *node, step Step) (*node, string) {
 		return nil, ""
 	}
 	x.mu.Lock()
-	x.st.tjobs++
-	x.st.trans += trans + 1
+	x.st.reopens++
+	x.st.trans++
 	x.mu.Unlock()
-	x.r.Trace(1)
 	return child, key
 }
 
@@ -400,12 +459,12 @@ func (x *explorer) explore() (complete bool) {
 		// E jobs
 		kids := make([][]Step, len(level))
 		ev.Par(len(level), workers, func(i int) {
-			if x.r.Expired() {
+			if expired(x.r) {
 				return
 			}
 			kids[i] = x.ejob(level[i])
 		})
-		if x.r.Expired() {
+		if expired(x.r) {
 			return false
 		}
 		var jobs []tj
@@ -418,7 +477,7 @@ func (x *explorer) explore() (complete bool) {
 			if n.reopens < x.sc.Reopen && !n.held && len(n.hist) > 0 && n.hist[len(n.hist)-1].Kind != "reopen" {
 				steps = append(steps, Step{Kind: "reopen"})
 			}
-			if x.sc.Hold && !n.held && n.holds == 0 && n.txUsed < x.sc.MaxTx {
+			if x.sc.Hold && !(x.sc.HoldNeverOnly && x.cfg.FlushEvery) && !n.held && n.holds == 0 && n.txUsed < x.sc.MaxTx {
 				steps = append(steps, Step{Kind: "hold"})
 			}
 			if n.held && n.hist[len(n.hist)-1].Kind != "hold" {
@@ -431,12 +490,12 @@ func (x *explorer) explore() (complete bool) {
 		childs := make([]*node, len(jobs))
 		keys := make([]string, len(jobs))
 		ev.Par(len(jobs), workers, func(i int) {
-			if x.r.Expired() {
+			if expired(x.r) {
 				return
 			}
 			childs[i], keys[i] = x.tjob(jobs[i].n, jobs[i].step)
 		})
-		if x.r.Expired() {
+		if expired(x.r) {
 			return false
 		}
 		level = nil
